@@ -28,6 +28,15 @@ def gen_cases(ctx):
         # hashed ranges around the holiday clusters: every date x 5 modifiers x 2 flags
         for d in calgen.interesting_dates(rng, info, lo, hi, 3 if th else 2):
             cases.append((enc, 31, [d - 20, 45]))
+    # the last days of February and the first of March in EVERY year divisible by 4 or 100 of the range plus a sample of others
+    # (month-boundary logic of the modified rules: 2100 and 2200 are not leap years), weekend calendar and one with a holiday
+    for y in sorted(set([2000, 2100, 2200, 1972, 2096, 2104] + [rng.randint(1970, 2200) for _ in range(6)])):
+        for enc in ([0] + calgen.enc_cal([5, 6], []), [0] + calgen.enc_cal([5, 6], [calgen.dn(y, 3, 1)]), [0] + calgen.enc_cal([6], [calgen.dn(y, 2, 28)])):
+            d0 = calgen.dn(y, 2, 24)
+            cases.append((enc, 31, [d0, 12]))
+            for d in range(d0, d0 + 10):
+                for m in range(5):
+                    cases.append((enc, 13, [d, 0, m, rng.randrange(2)]))
     # built-in and combined named calendars
     names = ["tgt", "ldn,tgt|fed", "nyc", "bus", "all", "tyo,syd|nyc", "stk,osl", "mum|tgt,ldn", "wlg,tro|zur,fed"]
     for nm in names:
